@@ -94,9 +94,11 @@ EVENTS = {
     'thm': '\\begin{zzthm}t\\end{zzthm}', 'lem': '\\begin{zzlem}t\\end{zzlem}', 'prop': '\\begin{zzprop}t\\end{zzprop}',
     'app': None, 'setsec': '\\setcounter{section}{5}', 'addeq': '\\addtocounter{equation}{2}',
     'stepsec': '\\stepcounter{section}', 'setsub': '\\setcounter{subsection}{3}',
+    'setch9': '\\setcounter{chapter}{9}', 'stepu': '\\stepcounter{zzu}',
     'enum': '\\begin{enumerate}\\item a\\begin{enumerate}\\item b\\item c\\end{enumerate}\\item d\\end{enumerate}',
 }
-PREAMBLE = '\\newtheorem{zzthm}{Theorem}\\newtheorem{zzlem}[zzthm]{Lemma}\\newtheorem{zzprop}{Prop}[section]'
+PREAMBLE = ('\\newtheorem{zzthm}{Theorem}\\newtheorem{zzlem}[zzthm]{Lemma}\\newtheorem{zzprop}{Prop}[section]'
+            '\\newcounter{zzu}[section]')
 
 # deviations of plasTeX from the LaTeX rules (named; see known_findings.json)
 D_SET_RESETS = 1        # \setcounter / \addtocounter reset the dependent counters (LaTeX: only stepping does)
@@ -111,9 +113,9 @@ class LModel(object):
         self.numdepth = numdepth
         self.dev = dev
         self.c = {k: 0 for k in ('chapter', 'section', 'subsection', 'subsubsection', 'equation', 'figure', 'table',
-                                 'zzthm', 'zzprop')}
+                                 'zzthm', 'zzprop', 'zzu')}
         self.appendix = False
-        self.resets = {'section': ['subsection', 'zzprop'], 'subsection': ['subsubsection'], 'subsubsection': []}
+        self.resets = {'section': ['subsection', 'zzprop', 'zzu'], 'subsection': ['subsubsection'], 'subsubsection': []}
         if cls == 'book':
             self.resets['chapter'] = ['section', 'equation', 'figure', 'table']
         self.out = []
@@ -217,6 +219,12 @@ class LModel(object):
                 self.reset_children('subsection')
         elif ev == 'addeq':
             self.c['equation'] += 2
+        elif ev == 'setch9':
+            self.c['chapter'] = 9
+            if self.dev & D_SET_RESETS:
+                self.reset_children('chapter')
+        elif ev == 'stepu':
+            self.step('zzu')
         elif ev == 'stepsec':
             self.step('section')
         elif ev == 'enum':
@@ -230,16 +238,16 @@ class LModel(object):
 
 def events_for(cls):
     evs = ['sec', 'sub', 'ssub', 'secstar', 'eq', 'eqa', 'fig', 'tab', 'thm', 'lem', 'prop', 'app', 'setsec', 'setsub',
-           'addeq', 'stepsec', 'enum']
+           'addeq', 'stepsec', 'enum', 'stepu']
     if cls == 'book':
-        evs = ['ch'] + evs
+        evs = ['ch', 'setch9'] + evs
     return evs
 
 
 def enabled(cls, nd, ev):
     # a theorem numbered within section while sections are below the numbering depth: LaTeX does not step the
     # section counter there, plasTeX's option does -- outside the scope of the statement
-    if ev == 'prop' and nd is not None and nd < 1:
+    if ev in ('prop', 'stepu') and nd is not None and nd < 1:
         return False
     if ev == 'app' and nd is not None and nd < (0 if cls == 'book' else 1):
         return False
@@ -281,14 +289,14 @@ def observe(cls, numdepth, hist):
         r = getattr(n, 'ref', None)
         if name == 'ArrayRow' and in_eqnarray:
             if r is not None:
-                out.append(('row', r.textContent))
+                out.append(('row', str(r.textContent)))
         elif name in NUMBERED:
-            out.append((name, r.textContent if r is not None else None))
+            out.append((name, str(r.textContent) if r is not None else None))
         for c in n.childNodes:
             rec(c, in_eqnarray or name == 'eqnarray')
     rec(doc, False)
     counters = {k: doc.context.counters[k].value for k in ('section', 'subsection', 'equation', 'figure', 'table',
-                                                            'zzthm', 'zzprop')}
+                                                            'zzthm', 'zzprop', 'zzu')}
     if cls == 'book':
         counters['chapter'] = doc.context.counters['chapter'].value
     return out, counters
@@ -299,7 +307,7 @@ def expected(cls, numdepth, hist, dev=0):
     for e in hist:
         m.apply(e)
     cnt = {k: v for k, v in m.c.items() if k in ('section', 'subsection', 'equation', 'figure', 'table', 'zzthm',
-                                                'zzprop', 'chapter')}
+                                                'zzprop', 'chapter', 'zzu')}
     if cls != 'book':
         cnt.pop('chapter', None)
     # counters of units that are below the numbering depth are not compared (LaTeX does not step them)
@@ -308,6 +316,7 @@ def expected(cls, numdepth, hist, dev=0):
     if m.numdepth < 1:
         cnt.pop('section', None)
         cnt.pop('zzprop', None)
+        cnt.pop('zzu', None)
     return m.out, cnt, m
 
 
